@@ -39,15 +39,18 @@ Proof. vm_compute. auto. Qed.
 
 (* ------------------------------------------- the driver before the fixes *)
 
-(* Finding C08-1.  With the driver reading Set*Timer(0) as sleep(0 s) (and an
-   FSM that leaves the 240 s OpenSent timer armed when the negotiated hold
-   time is 0) "zero disables it" is false: the witness is a peer that
-   advertises hold time 0. *)
+(* Finding C08-1 (repaired).  Before the fix the FSM left the 240 s OpenSent
+   timer armed when the negotiated hold time was 0, emitted SetHoldTimer(0) on
+   every KEEPALIVE/UPDATE, and the driver read Set*Timer(0) as sleep(0 s): the
+   session died of "hold timer expiry" right after the first KEEPALIVE
+   (corpus/C08/c08_1_hold_zero.json replays it on the real code).  The FSM
+   half of the repair makes on_open emit SetHoldTimer(0); this lemma records
+   that the driver half is needed as well: with the sleep(0 s) reading "zero
+   disables it" is still false, the witness is a peer advertising hold time 0. *)
 Definition pre_fix : cfg := {| c_arm := arm_sleep; c_loop_to_fsm := false |}.
 
 Definition w_p0 : pfsm := pfsm_new 200 65000 [] 90 65001 [].
-Definition w_zero : list ev :=
-  [EArrive [IMsg (MOpen 65001 100 0 [])]; ESelect; ETick 1; EArrive [IMsg MKeepalive]; ESelect].
+Definition w_zero : list ev := [EArrive [IMsg (MOpen 65001 100 0 [])]; ESelect].
 
 Lemma C08_zero_hold_dies_with_sleep0_driver :
   exists p r t0 b evs,
